@@ -530,6 +530,10 @@ class SNum(Sym):
     def __init__(self, e):
         self.e = e
 
+    def __bool__(self):
+        # truthiness of a number (`if value:`): a fork on value != 0
+        return bool(self != 0)
+
     def _bin(self, o, f, kind):
         if isinstance(o, SBool):
             o = o._i()
